@@ -250,3 +250,21 @@ func (c *Conn) Break(note string) {
 
 // Unread returns the number of bytes injected but not yet read by the client.
 func (c *Conn) Unread() int { return len(c.in) }
+
+// PeerCloseFromTimer closes the link from the peer side inside a timer action.
+func (c *Conn) PeerCloseFromTimer(t *vrt.Timer, note string) {
+	if c.eof {
+		return
+	}
+	c.eof = true
+	c.EOFAt = vrt.Now()
+	vrt.TimerTouch(t, unsafe.Pointer(c))
+	c.Net.log(WireEvent{Conn: c.ID, Dir: '!', Note: "closed by peer: " + note})
+}
+
+// InjectFromTimer makes data readable by the client inside a timer action.
+func (c *Conn) InjectFromTimer(t *vrt.Timer, data []byte) {
+	c.in = append(c.in, data...)
+	vrt.TimerTouch(t, unsafe.Pointer(c))
+	c.Net.log(WireEvent{Conn: c.ID, Dir: '<', Raw: data, Note: "injected by timer"})
+}
